@@ -18,4 +18,19 @@ CHECKS = {
                  "TLC judges size=len, tagged = tag.varint(len).body (one frame per element in the repeated form), consumed = len, prefix kept, "
                  "and that every Marshal output walks to its exact end.",
          "note": TB + " Values containing multi-entry maps are compared on header and length only (iteration order differs between two Append calls)."},
+ "C09": {"technique": "presence-aware TLA+ value model (nil/valid distinguished) judged on real round trips + frame walk + descriptor flags",
+         "text": "Presence is part of the model's values; TLC judges every real round trip of the presence sub-universe (pointer fields, pointer map values, "
+                 "pointer slices, the five null types, zero and empty pointees, zero keys) and of random types: nil-ness / Valid equal, pointee equal, "
+                 "zero plain fields leave no frame at any struct depth, Descriptor.ExplicitPresence set exactly for pointer / null positions.",
+         "note": TB + " Double presence (**T, *null.X) and null types as slice elements have no representation in the format and are outside the generated universe."},
+ "C12": {"technique": "independent protobuf wire reader in TLA+ (ProtoWalk) + cross-configuration decode, TLC design invariants OptionLocal / CrossRead",
+         "text": "TLC checks on the model that each option changes only its own encodings and that default mode reads the repeated form; real bytes of "
+                 "all four configurations are judged by EncMatches, by a protobuf walker restricted to wire types 0/1/2/5 along the message structure, "
+                 "and the bytes of ProtoCompatibleArrays instances are decoded by a default-array instance and compared with the value.",
+         "note": TB + " Precondition of the statement: map fields tagged proto. Open finding F19 (null.Time keeps zig-zag) is named in the spec."},
+ "C14": {"technique": "TLA+ DescriptorOf(type) compared attribute-by-attribute with the real Codec.Descriptor() of every generated type",
+         "text": "For every enumerated and random type definition (json tag forms, all tag options, named types, unexported / '-' fields, nesting) the "
+                 "real descriptor is projected and TLC compares index, name, field type, struct type name, explicit presence, logical types and element "
+                 "count recursively with the model's DescriptorOf.",
+         "note": TB + " Recursive types are excluded here: Descriptor() of a recursive type does not return (finding F16); map-entry synthetic names are not compared."},
 }
